@@ -180,7 +180,8 @@ class SmpteTimeCode(_HHMMSSTimeExpression):
 
       dropped_frames = nb_of_drop_frames_in_tens + nb_of_drop_frames_in_remaining
 
-    frame_rate = self._frame_rate if not self.is_drop_frame() else ceil(self._frame_rate)
+    # labels always count frames at the nominal (integer) frame rate
+    frame_rate = ceil(self._frame_rate)
 
     return int(super().to_seconds() * frame_rate) + self._frames - dropped_frames
 
@@ -193,9 +194,14 @@ class SmpteTimeCode(_HHMMSSTimeExpression):
     nb_frames = self.to_frames()
     return Fraction(nb_frames, self._frame_rate)
 
+  @staticmethod
+  def _is_drop_frame_rate(frame_rate: Fraction) -> bool:
+    """Drop-frame counting is defined for 30000/1001 and 60000/1001 fps only (not for 24000/1001 fps)"""
+    return frame_rate.denominator == 1001 and ceil(frame_rate) % 30 == 0
+
   def is_drop_frame(self) -> bool:
     """Returns whether the time code is drop-frame or not"""
-    return self._frame_rate.denominator == 1001
+    return SmpteTimeCode._is_drop_frame_rate(self._frame_rate)
 
   def add_frames(self, nb_frames=1):
     """Add frames to the current time code"""
@@ -242,7 +248,7 @@ class SmpteTimeCode(_HHMMSSTimeExpression):
     if frame_rate is None:
       raise ValueError("Cannot compute time code from frames without frame rate")
 
-    drop_frame = frame_rate.denominator == 1001
+    drop_frame = SmpteTimeCode._is_drop_frame_rate(frame_rate)
 
     if drop_frame:
       # add two dropped frames every minute, but not when the minute count is divisible by 10
